@@ -1,7 +1,7 @@
 INIT Init
 NEXT Next
 CONSTANTS
-  Kinds = {"Tensor", "Mps", "Mpo", "Peps", "EnvCTM", "EnvBP", "EnvBMPS"}
+  Kinds = {"Tensor", "Mps", "Mpo", "Peps", "EnvCTM", "EnvBP", "EnvBMPS", "MpoPBC"}
   Depth = 6
 CONSTRAINT Bound
 INVARIANT I_Outcome
